@@ -144,6 +144,19 @@ def basic():
             b.upd(c, [0, 0, 0, 0]).ka(c).adv(20).upd(c, list(range(40))).adv(31).ka(c).adv(65)
             b.notif(c, 6, 2).adv(6)
             out.append(b.tag("established").build())
+    # what the remote announces (any capabilities, in any number) changes nothing in the callback history
+    capsets = [((6, []),), ((1, [0, 1, 0, 1]), (2, [])), ((64, [0, 120]), (6, []), (70, [])), ((69, [0, 1, 1, 3]), (73, [2, 104, 105])),
+               tuple((200 + i, [i]) for i in range(20))]
+    for i, cs in enumerate(capsets):
+        for d in DIRS:
+            b = Sb("basic-caps-%d-%s" % (i, d), [peer(caps=[(1, [0, 1, 0, 1]), (6, [])] if i % 2 == 0 else [])])
+            b.extra_caps = cs
+            b.start()
+            c = b.establish(direction=d)
+            b.upd(c, [1, 2, 3]).ka(c).notif(c, 6, 2).adv(6)
+            c2 = b.establish(direction=d)
+            b.upd(c2, [4]).adv(1)
+            out.append(b.tag("established", "caps").build())
     return out
 
 
